@@ -23,6 +23,12 @@ import (
 // This function is called by (*clientHandshakeStateTLS13).readServerCertificate()
 // to retrieve the certificate out of a message read by (*Conn).readHandshake()
 func (hs *clientHandshakeStateTLS13) utlsReadServerCertificate(msg any) (processedMsg any, err error) {
+	if hs.c.echAccepted {
+		// The server answers the inner ClientHello, which uTLS builds without a
+		// compress_certificate extension (only the outer hello carries the spec's
+		// extensions): a CompressedCertificate was not solicited.
+		return nil, nil
+	}
 	for _, ext := range hs.uconn.Extensions {
 		switch ext.(type) {
 		case *UtlsCompressCertExtension:
